@@ -24,6 +24,9 @@ EXPLANATION = (
     'path. Decides atomicity and ordering of claim/execute/register for all '
     'schedules via lock discipline; does not enumerate interleavings.'
     ' R8.2b: the whole-subtree repeat test and registration visit every complex suboperation (path enumeration over the two recursive walkers). R8.3d: finish_* only after a claim that succeeded.')
+# round 3/4 additions
+EXPLANATION += (
+    ' R8.7: a reused record registers everything nested in it (R1.5 incl. copy-before-register).')
 
 CLAIM_MAPS = {'_files': 'files', '_norm_cased_files': 'files',
               '_subbuilds': 'subbuilds'}
